@@ -800,9 +800,10 @@ impl Xot {
                             namespaces.push(namespace_id);
                         }
                         for name in self.attributes(node).keys() {
-                            let namespace_id = self.namespace_for_name(name);
-                            if !fullname_serializer.is_namespace_known(namespace_id) {
-                                namespaces.push(namespace_id);
+                            // an attribute cannot use the default namespace,
+                            // it needs a prefix
+                            if fullname_serializer.attribute_prefix(name).is_err() {
+                                namespaces.push(self.namespace_for_name(name));
                             }
                         }
                     }
